@@ -530,7 +530,10 @@ def fn_key(modpath, it):
     return '::'.join(modpath + [p]) if modpath else p
 
 
-def splice(fname, modpath, src, overlay, used, lost):
+def splice(fname, modpath, src, overlay, used, lost, opts=None, shapes=None):
+    opts = opts or {}
+    drop, drop_contract, base_kinds = opts.get('drop', set()), opts.get('drop_contract', set()), opts.get('loop_kinds', None)
+    shapes = shapes if shapes is not None else {'uncontracted': [], 'loop_kinds': {}}
     items = rsx.parse_items(src)
     ed = Edits(src)
     for it in rsx.walk(items):
@@ -542,8 +545,19 @@ def splice(fname, modpath, src, overlay, used, lost):
         if it.kind != 'fn':
             continue
         key = fn_key(modpath, it)
+        if key in drop_contract:
+            # the contract text itself no longer fits this function (e.g. renamed parameters): no contract, body not verified;
+            # ./check treats every caller of it as undecided
+            overlay.lookup(key, used)
+            if it.body_open is not None:
+                ed.add(it.header_start, it.header_start, '#[verifier::external_body]\n    ', 'OV')
+            lost.append((key, 'contract does not compile against the edited function'))
+            continue
         ov = overlay.lookup(key, used)
         if ov is None:
+            head = src[it.header_start:it.body_open] if it.body_open is not None else ''
+            if it.body_open is not None and not re.search(r'\b(spec|proof|axiom)\s+fn\b', head) and 'external_body' not in src[max(0, it.header_start - 120):it.header_start]:
+                shapes['uncontracted'].append(key)
             continue
         tag = ' // @contract ' + key
         for a in ov['attrs']:
@@ -562,6 +576,13 @@ def splice(fname, modpath, src, overlay, used, lost):
             ed.add(it.sig_end, it.sig_end, '\n' + text + tag + '\n    ', 'OV')
         pend = []
         n_lost0 = len(lost)
+        if ov['loops']:
+            kinds = [L.kind for L in it.loops]
+            shapes['loop_kinds'][key] = kinds
+            if base_kinds is not None and key in base_kinds and base_kinds[key] != kinds:
+                lost.append((key, 'loop structure changed (%s -> %s): the loop invariants were written for another shape' % (' '.join(base_kinds[key]), ' '.join(kinds))))
+        if key in drop:
+            lost.append((key, 'proof annotations do not compile against the edited body'))
         for k, lp in ov['loops'].items():
             if k < 1 or k > len(it.loops):
                 lost.append((key, 'loop %d (function has %d loops)' % (k, len(it.loops))))
@@ -625,7 +646,7 @@ def splice(fname, modpath, src, overlay, used, lost):
 
 # ----------------------------------------------------------------------------
 
-def build(repo, contracts, arch, report):
+def build(repo, contracts, arch, report, opts=None):
     overlay = Overlay()
     ovdir = os.path.join(contracts, 'overlay')
     if os.path.isdir(ovdir):
@@ -634,6 +655,11 @@ def build(repo, contracts, arch, report):
                 overlay.load(os.path.join(ovdir, f))
     rules = Rules(arch, report['rules'], overlay.private)
     used, lost = set(), []
+    shapes = {'uncontracted': [], 'loop_kinds': {}}
+    opts = dict(opts or {})
+    bpath = os.path.join(contracts, 'baseline_shapes.json')
+    if os.path.exists(bpath):
+        opts['loop_kinds'] = json.load(open(bpath)).get('loop_kinds', {})
     tree = {'': {'text': '', 'subs': {}}}
     mods = {}   # tuple(modpath) -> text
     for fname, modpath in FILES:
@@ -645,7 +671,7 @@ def build(repo, contracts, arch, report):
         src = open(path).read()
         rules.modpath = list(modpath)
         out = rules.apply_all(fname, src)
-        out = splice(fname, modpath, out, overlay, used, lost)
+        out = splice(fname, modpath, out, overlay, used, lost, opts, shapes)
         extra = overlay.modules.get('::'.join(modpath) if modpath else 'crate', [])
         if extra:
             out += '\n// @module-extra\n' + '\n'.join(extra) + '\n'
@@ -658,6 +684,7 @@ def build(repo, contracts, arch, report):
             lost.append((key, 'trait/impl not found'))
     report['lost_anchors'] = [{'key': k, 'what': w} for k, w in lost]
     report['contracts_spliced'] = sorted(k for k in used if isinstance(k, str))
+    report['shapes'] = shapes
 
     def emit(path):
         text = mods.get(tuple(path), '')
@@ -686,14 +713,19 @@ def main():
     ap.add_argument('--out', required=True)
     ap.add_argument('--arch', default='x86_64')
     ap.add_argument('--report')
+    ap.add_argument('--drop', default='', help='comma list of function keys whose proof annotations are left out (body unverified, contract kept)')
+    ap.add_argument('--drop-contract', default='', help='comma list of function keys whose whole overlay entry is left out')
+    ap.add_argument('--write-baseline', help='write loop kinds / uncontracted functions of this tree to the given file')
     a = ap.parse_args()
     report = {'rules': defaultdict(list)}
     try:
-        text = build(a.repo, a.contracts, a.arch, report)
+        text = build(a.repo, a.contracts, a.arch, report, {'drop': set(filter(None, a.drop.split(','))), 'drop_contract': set(filter(None, a.drop_contract.split(',')))})
     except (ExtractError, rsx.ScanError) as e:
         print('EXTRACT-ERROR: %s' % e, file=sys.stderr)
         sys.exit(2)
     open(a.out, 'w').write(text)
+    if a.write_baseline:
+        json.dump(report['shapes'], open(a.write_baseline, 'w'), indent=1, sort_keys=True)
     if a.report:
         report['rules'] = {k: v for k, v in report['rules'].items()}
         json.dump(report, open(a.report, 'w'), indent=1)
